@@ -658,7 +658,7 @@ fn build_env(thorough: bool) -> Env {
     let mut scale_issuers: Vec<ResourceCert> = Vec::new();
     for &n in &[17usize, 33, 65] {
         let v4: Vec<(u128, u128)> = (1..=n as u128).map(|k| (0x0a00_0000 + (k << 16), 0x0a00_0000 + (k << 16) + 255)).collect();          // 10.k.0.0/24
-        let v6: Vec<(u128, u128)> = (1..=n as u128).map(|k| { let b = (0x2001_0db8u128 << 96) | (k << 80); (b, b | ((1u128 << 80) - 1)) }).collect(); // 2001:db8:k::/48
+        let v6: Vec<(u128, u128)> = (1..=n as u128).map(|k| { let b = (0x2001_0db8u128 << 96) | (k << 81); (b, b | ((1u128 << 80) - 1)) }).collect(); // 2001:db8:2k::/48
         let asn: Vec<(u128, u128)> = (1..=n as u128).map(|k| (64496 + 4 * k, 64496 + 4 * k + 1)).collect();
         let res = || Res { v4: Claim::Blocks(v4.clone()), v6: Claim::Blocks(v6.clone()), asn: Claim::Blocks(asn.clone()) };
         let sca_der = pki::build_cert_der(&signer, &spec_with(Spec::issued(pki::Kind::Ca, 3, 0, ta.subject_key_identifier(), res(), Overclaim::Refuse), 100 + n as u128));
@@ -674,7 +674,7 @@ fn build_env(thorough: bool) -> Env {
         let places: [(&str, u128, i64); 7] = [("below-first", 1, -256), ("first", 1, 0), ("gap-after-first", 1, 256), ("middle", mid, 0), ("gap-after-middle", mid, 256), ("last", n as u128, 0), ("above-last", n as u128, 256)];
         for (what, k, off) in places {
             let a4 = ((0x0a00_0000 + (k << 16)) as i64 + off) as u128;
-            let a6 = (((0x2001_0db8u128 << 96) | (k << 80)) as i128 + ((off as i128) << 72)) as u128;   // off = +-256 -> the neighbouring /48
+            let a6 = (((0x2001_0db8u128 << 96) | (k << 81)) as i128 + ((off as i128) << 72)) as u128;   // off = +-256 -> the neighbouring (unallocated) /48
             let econtent = der::roa_content(None, 64500, Some(&[der::roa_addr_from(a4, 24, 32, Some(24))]), Some(&[der::roa_addr_from(a6, 48, 128, None)]));
             push(format!("scale/{n}-blocks-{what}.roa"), Kind::Roa, e5_signed_object(&signer, der::OID_CT_ROA, &econtent, &see_der, 2, vec![], true));
             let cust = (64496 + 4 * k) as i64 + if off < 0 { -1 } else if off > 0 { 2 } else { 0 };
@@ -1004,6 +1004,28 @@ impl<'e> Sweep<'e> {
             let mut c = b.clone(); c.intersection_assign(&other);
             if let Some(first) = b.iter().next() { let _ = (b.contains_block(first), other.intersects_block(first)); }
         });
+        self.run("C04.ip.probes", "IpBlocks::contains_block/intersects_block/contains_roa at and around the first, middle and last block", || {
+            use rpki::repository::resources::Addr;
+            use rpki::repository::roa::RoaIpAddress;
+            let v: Vec<IpBlock> = b.iter().collect();
+            let mut probes: Vec<Addr> = vec![Addr::from_bits(0), Addr::from_bits(u128::MAX)];
+            if !v.is_empty() {
+                for idx in [0, v.len() / 2, v.len() - 1] {
+                    let (lo, hi) = (v[idx].min().to_bits(), v[idx].max().to_bits());
+                    probes.push(Addr::from_bits(lo)); probes.push(Addr::from_bits(hi));
+                    if lo > 0 { probes.push(Addr::from_bits(lo - 1)) }
+                    if hi < u128::MAX { probes.push(Addr::from_bits(hi + 1)) }
+                }
+            }
+            let host = if v4 { 32 } else { 128 };
+            for a in probes {
+                for len in [host, host - 8, 0] {
+                    let p = Prefix::new(a, len);
+                    let _ = (b.contains_block(p), b.intersects_block(p), b.contains_roa(&RoaIpAddress::new(p, None)), b.contains_roa(&RoaIpAddress::new(p, Some(host))));
+                }
+            }
+            if v.len() >= 2 { let span = IpBlock::from((v[0].min(), v[v.len() - 1].max())); let _ = (b.contains_block(span), b.intersects_block(span)); }
+        });
         self.run("C04.ip.verify_issued", "IpBlocks::verify_issued/verify_covered", || {
             let res = IpResources::blocks(b.clone());
             let _ = other.verify_issued(&res, Overclaim::Refuse);
@@ -1038,6 +1060,20 @@ impl<'e> Sweep<'e> {
             let _ = b.difference(&other); let _ = other.difference(b);
             let _ = b.union(&other); let _ = b.union(b);
             let mut c = b.clone(); c.intersection_assign(&other);
+        });
+        self.run("C04.as.probes", "AsBlocks::contains_asn at and around the first, middle and last block", || {
+            let v: Vec<rpki::repository::resources::AsBlock> = b.iter().collect();
+            let mut probes: Vec<u32> = vec![0, u32::MAX];
+            if !v.is_empty() {
+                for idx in [0, v.len() / 2, v.len() - 1] {
+                    let (lo, hi) = (v[idx].min().into_u32(), v[idx].max().into_u32());
+                    probes.extend([lo, hi, lo.wrapping_sub(1), hi.wrapping_add(1)]);
+                }
+            }
+            for a in probes {
+                let one: AsBlocks = std::iter::once(rpki::repository::resources::AsBlock::Id(Asn::from_u32(a))).collect();
+                let _ = (b.contains_asn(Asn::from_u32(a)), b.contains(&one), b.intersection(&one).is_empty(), b.difference(&one).is_empty());
+            }
         });
         self.run("C04.as.verify_issued", "AsBlocks::verify_issued/verify_covered", || {
             let res = AsResources::blocks(b.clone());
@@ -1267,7 +1303,12 @@ impl<'e> Sweep<'e> {
     fn crl(&mut self, crl: &Crl) {
         let env = self.env; let n = self.n;
         let first = self.run("C04.crl.iter", "RevokedCertificates::iter (first)", || crl.revoked_certs().iter().next().map(|e| e.user_certificate)).flatten();
-        let serials = [first.unwrap_or(Serial::from(9u64)), Serial::from(0u64), Serial::from(u128::MAX >> 1)];
+        let n0 = self.n;
+        let (mid, last) = self.run("C04.crl.iter", "RevokedCertificates::iter (middle, last)", || {
+            let v: Vec<Serial> = crl.revoked_certs().iter().take(n0 + 1).map(|e| e.user_certificate).collect();
+            (v.get(v.len() / 2).copied(), v.last().copied())
+        }).unwrap_or((None, None));
+        let serials = [first.unwrap_or(Serial::from(9u64)), mid.unwrap_or(Serial::from(11u64)), last.unwrap_or(Serial::from(12u64)), Serial::from(0u64), Serial::from(11u64), Serial::from(u128::MAX >> 1)];
         self.run("C04.crl.contains", "Crl::contains", || {
             for s in serials { let _ = crl.contains(s); let _ = crl.revoked_certs().contains(s); }
         });
@@ -2658,6 +2699,9 @@ fn main() {
     finish_space(SpaceId::Rs, "bound1.resigned",
         &format!("deviations behind the signature checks: every full-menu operator at every node of a to-be-signed part (TBS of fresh EE/CA/router and identity certificates; TBSCertList and identity EE certificate inside a signed message; ROA/manifest/ASPA eContent), after which the object is signed again with the pool keys (message digest, signed attributes, CRL and certificate signatures) and decoded and swept; cases rejected with zero signatures are not signed; non-trivial = deviations that still decode. Operator menu: {menu}"),
         true, "deviation bound 1 on 9 to-be-signed parts", None);
+    finish_space(SpaceId::Scale, "scale.lists",
+        "the scale dimension, unmutated objects through every entry point of their type and the full sweep: (a) CA / EE certificates with 17, 33 and 65 disjoint blocks per family, and correctly signed ROAs and ASPAs under them (EE resources independent of the content) asking for a prefix / customer AS below the first block, at the first, a middle and the last block, in the gaps after the first and a middle block, above the last block; (b) CRLs, manifests and ROAs with 0..=40 and 255..=257 entries, ASPAs with 1..=40, 255..=257 and 16379..=16381 providers (thorough: also the neighbourhoods of 64, 128, 1024, 4096, and for providers 8192 and 16384); every decoded block list of every space is in addition probed at and around its first, middle and last block (C04.ip.probes, C04.as.probes), every CRL at its first, middle and last entry; non-trivial = (object, entry point) pairs that decode",
+        true, "3 block counts x 7 placements x {ROA, ASPA}; list counts as stated", None);
     {
         let hung = deaths.iter().filter(|d| d.task.sp == SpaceId::Own).count() as u64;
         let hung_eps: Vec<Ep> = deaths.iter().filter(|d| d.task.sp == SpaceId::Own).map(|d| d.task.ep).collect();
